@@ -871,6 +871,7 @@ func main() {
 		go func() { defer wg.Done(); values(w*n/workers, (w+1)*n/workers, w) }()
 	}
 	wg.Wait()
+	contention()
 	r.Eval(int(evals.Load()))
 	r.Finish()
 }
